@@ -889,3 +889,74 @@ def g4_hidden_state(prog: Program, run: Run, rule: str, patterns: Sequence[str])
     run.ok(rule, "scope", f"{n} functions: no mutable default that is written, no memo keyed by a "
            "name, no lazily cached value that ignores an argument, no memoised method", "odxtools/")
     return n
+
+
+# --------------------------------------------------------------------- G11
+_SETUP_METHODS = ("__init__", "__post_init__", "_finalize_init", "_build_odxlinks", "__deepcopy__",
+                  "__copy__", "__reduce__", "__setstate__")
+
+
+def g11_description_not_mutated(prog: Program, run: Run, rule: str,
+                                patterns: Sequence[str]) -> int:
+    """Objects that describe the database (everything that is parsed with from_et, and what hangs
+    off it) are read-only after loading: a method that is called while en-/decoding, converting
+    or querying must not change them in place -- `self.points.sort()`, `lst = self.items;
+    lst.append(..)`, `self.x[k] = v`. Otherwise the answer to a query depends on which queries
+    were made before. Loading / resolving methods (from_et, __post_init__, _resolve_*,
+    _finalize_init ...) are the only writers."""
+    n = 0
+
+    def described(ci) -> bool:
+        return any(any("from_et" in m for m in c.methods) for c in prog.mro(ci))
+    for f in prog.iter_functions():
+        if not in_scope(f.module.rel, patterns) or f.cls is None or "self" not in f.params():
+            continue
+        if f.name in _SETUP_METHODS or f.name.startswith("_resolve") or "from_et" in f.name:
+            continue
+        if not described(f.cls):
+            continue
+        n += 1
+        aliases: Dict[str, str] = {}
+        for x in walk_no_nested(f.node):
+            if isinstance(x, ast.Assign) and len(x.targets) == 1 and isinstance(
+                    x.targets[0], ast.Name):
+                v = x.value
+                while isinstance(v, ast.Call) and call_name(v) == "cast" and len(v.args) == 2:
+                    v = v.args[1]
+                if isinstance(v, ast.Attribute) and isinstance(v.value, ast.Name) and \
+                        v.value.id == "self":
+                    aliases[x.targets[0].id] = ast.unparse(v)
+
+        def owner(e: ast.AST) -> Optional[str]:
+            if isinstance(e, ast.Attribute) and isinstance(e.value, ast.Name) and \
+                    e.value.id == "self":
+                return ast.unparse(e)
+            if isinstance(e, ast.Name) and e.id in aliases:
+                # an alias that is re-bound to a fresh object is no alias
+                defs = [a for a in walk_no_nested(f.node) if isinstance(a, ast.Assign) and
+                        len(a.targets) == 1 and isinstance(a.targets[0], ast.Name) and
+                        a.targets[0].id == e.id]
+                if len(defs) == 1:
+                    return aliases[e.id]
+            return None
+        for x in walk_no_nested(f.node):
+            tgt = how = None
+            if isinstance(x, ast.Call) and isinstance(x.func, ast.Attribute) and \
+                    x.func.attr in _MUT_CALLS | {"sort", "reverse"}:
+                tgt, how = owner(x.func.value), f".{x.func.attr}()"
+            elif isinstance(x, (ast.Assign, ast.Delete)):
+                for t in x.targets:
+                    if isinstance(t, ast.Subscript):
+                        tgt, how = owner(t.value), "item assignment"
+            elif isinstance(x, ast.AugAssign) and isinstance(x.target, ast.Name):
+                tgt, how = owner(x.target), "augmented assignment"
+            if tgt is None:
+                continue
+            run.violation(rule, f"{f.module.rel}:{f.qual}", f"mutates-{tgt}",
+                          f"`{stmt_key(x) if isinstance(x, ast.stmt) else ast.unparse(x)}` changes "
+                          f"`{tgt}` in place ({how}) in a method that is called at use time: the "
+                          "description is altered by using it, later conversions / decodings "
+                          "see the changed data", f"{f.module.rel}:{x.lineno}")
+    run.ok(rule, "scope", f"{n} use-time methods of description classes examined: none mutates "
+           "the description in place", "odxtools/")
+    return n
